@@ -84,6 +84,10 @@ func insertFences(repo string) error {
 	if err := insertFuncStartFence(filepath.Join(repo, "pkg/http2/server.go"), "noteBodyReadFromHandler", "verifYieldBodyRead"); err != nil {
 		missing = append(missing, "noteBodyReadFromHandler: "+err.Error())
 	}
+	// write fence: the frame-writing goroutine parks before the write (back-pressure stand-in)
+	if err := insertFuncStartFence(filepath.Join(repo, "pkg/http2/server.go"), "writeFrameAsync", "verifYieldWrite"); err != nil {
+		missing = append(missing, "writeFrameAsync: "+err.Error())
+	}
 	// capture fences: a yield before every "<x>.Mu.Lock()" statement in the forked
 	// server (the locks around the captured fingerprint data), so that the controller
 	// can run a handler between two critical sections of one frame's capture
